@@ -307,10 +307,17 @@ type wcase struct {
 	Stmt    *wstmt       `json:"stmt"`
 	B       int          `json:"b"`
 	Polls   string       `json:"polls"` // word over N(ext)/B(atch)/I(nit): the first poll executes, Init re-arms the plan and the next poll executes again
+	// Fault1 > 0: the storage call number Fault1 (counted from 1, planning
+	// included) fails; a statement that then reports success has done its work
+	Fault1 int `json:"fault_at_call,omitempty"`
 }
 
 func (c *wcase) text() string {
-	return fmt.Sprintf("%s | polls=%s B=%d prior=%s", c.Stmt.text(), c.Polls, c.B, store.CanonPairs(c.Prior))
+	f := ""
+	if c.Fault1 > 0 {
+		f = fmt.Sprintf(" fault@call%d", c.Fault1)
+	}
+	return fmt.Sprintf("%s | polls=%s B=%d%s prior=%s", c.Stmt.text(), c.Polls, c.B, f, store.CanonPairs(c.Prior))
 }
 
 type pollResult struct {
@@ -383,8 +390,31 @@ func judgeWrite(c *wcase) (f *core.Failure, observed string) {
 	}
 	st := store.New(c.Prior)
 	q := c.Stmt.text()
+	if c.Fault1 > 0 {
+		st.FaultAt = c.Fault1 - 1
+	}
 	berr, bpan, res, blog := runPolled(q, st, c.B, c.Polls)
 	post, _, ok := modelStep(c.Stmt, st0(c.Prior))
+	if c.Fault1 > 0 {
+		// a storage call failed. How the error travels is C13's subject; here:
+		// success may be reported only for work that was done
+		fired := false
+		for _, o := range st.Log {
+			fired = fired || o.Err
+		}
+		switch {
+		case !fired:
+			return nil, "fault-not-reached"
+		case bpan != "" || berr != nil || len(res) == 0 || res[0].pan != "":
+			return nil, "error:fault-at-planning"
+		case res[0].err != nil:
+			return nil, "error:fault-surfaced"
+		case ok && st.Canon() != store.CanonPairs(post):
+			return &core.Failure{Property: c.Prop, Leg: "transition-vs-model", Sig: "success-reported-work-not-done", Case: c.text(), Data: core.MustJSON(c),
+				Expected: "an error, or the post-state " + store.CanonPairs(post), Observed: fmt.Sprintf("no error, rows %v, post-state %s", res[0].rows, st.Canon())}, "x"
+		}
+		return nil, "fault-absorbed"
+	}
 	logStr := func(ops []store.Op) string {
 		parts := make([]string, len(ops))
 		for i, o := range ops {
@@ -939,6 +969,24 @@ func (c11) RunUnit(t core.Tier, u int, r *core.Reporter) {
 	for _, w := range historyStmts() {
 		c := wcase{Prop: "C11", Prior: stt.pairs, History: stt.history, Stmt: w, B: 2, Polls: "B"}
 		runWriteCase(r, &c)
+	}
+	// a storage call fails in the middle of the DELETE (every call in turn):
+	// the statement may report success only if the selected pairs are gone
+	for pi, p := range c11Preds() {
+		for li, lim := range c11Limits {
+			if t == core.Quick && (pi+li+u)%3 != 0 {
+				continue // quick tier: a third of the (predicate, limit) grid per state
+			}
+			w := &wstmt{Kind: "delete", Pred: p, Lim: lim}
+			for _, polls := range []string{"N", "B"} {
+				probe := store.New(stt.pairs)
+				runPolled(w.text(), probe, 2, polls)
+				for f := 1; f <= len(probe.Log); f++ {
+					c := wcase{Prop: "C11", Prior: stt.pairs, History: stt.history, Stmt: w, B: 2, Polls: polls, Fault1: f}
+					runWriteCase(r, &c)
+				}
+			}
+		}
 	}
 }
 
